@@ -180,10 +180,11 @@ func atomOfType(t types.Type) atom {
 type avKind int
 
 const (
-	avBot   avKind = iota // unreached
-	avConst               // known bool / int / string constant
-	avDyn                 // interface / reflect.Value / reflect.Type carrying a known dynamic type
-	avValid               // unknown, but a valid (non-nil) value
+	avBot    avKind = iota // unreached
+	avConst                // known bool / int / string constant
+	avDyn                  // interface / reflect.Value / reflect.Type carrying a known dynamic type
+	avValid                // unknown, but a valid (non-nil) value
+	avNilPtr               // the nil pointer / nil error
 	avTuple
 	avTop
 )
@@ -209,9 +210,14 @@ func (v aval) String() string {
 	case avConst:
 		return v.c.ExactString()
 	case avDyn:
+		if v.c != nil {
+			return "dyn:" + v.a.String() + "=" + v.c.ExactString()
+		}
 		return "dyn:" + v.a.String()
 	case avValid:
 		return "valid"
+	case avNilPtr:
+		return "nil"
 	case avTuple:
 		var s []string
 		for _, e := range v.tup {
@@ -230,6 +236,12 @@ func (v aval) eq(w aval) bool {
 	case avConst:
 		return v.c.Kind() == w.c.Kind() && constant.Compare(v.c, token.EQL, w.c)
 	case avDyn:
+		if (v.c == nil) != (w.c == nil) {
+			return false
+		}
+		if v.c != nil && !(v.c.Kind() == w.c.Kind() && constant.Compare(v.c, token.EQL, w.c)) {
+			return false
+		}
 		return v.a == w.a
 	case avTuple:
 		if len(v.tup) != len(w.tup) {
@@ -292,6 +304,16 @@ type dynInterp struct {
 	newPos   bool
 	reached  map[*ssa.BasicBlock]bool // blocks reached by some abstract run
 	analysed map[*ssa.Function]bool
+	arith    bool // also fold integer/float arithmetic on constants (ORDERINGS)
+	// region evaluation (COUNTING): start at a block with some values preset; calls are traced
+	startAt map[*ssa.Function]*ssa.BasicBlock
+	preset  map[ssa.Value]aval
+	trace   []tracedCall
+}
+
+type tracedCall struct {
+	callee string
+	args   []aval
 }
 
 func ctxKey(f *ssa.Function, args []aval) string {
@@ -353,6 +375,9 @@ func (di *dynInterp) run(f *ssa.Function, args []aval, depth int) aval {
 	di.ctxCount++
 
 	env := map[ssa.Value]aval{}
+	for v, a := range di.preset {
+		env[v] = a
+	}
 	for i, p := range f.Params {
 		if i < len(args) {
 			env[p] = args[i]
@@ -366,14 +391,24 @@ func (di *dynInterp) run(f *ssa.Function, args []aval, depth int) aval {
 		switch x := v.(type) {
 		case *ssa.Const:
 			if x.Value == nil {
-				if _, isIface := x.Type().Underlying().(*types.Interface); isIface {
+				if it, isIface := x.Type().Underlying().(*types.Interface); isIface && it.NumMethods() == 0 {
 					return dyn(aNil)
+				}
+				if di.arith {
+					switch x.Type().Underlying().(type) {
+					case *types.Pointer, *types.Interface:
+						return aval{k: avNilPtr}
+					}
 				}
 				return top
 			}
 			switch x.Value.Kind() {
 			case constant.Bool, constant.Int, constant.String:
 				return aval{k: avConst, c: x.Value}
+			case constant.Float:
+				if di.arith {
+					return aval{k: avConst, c: x.Value}
+				}
 			}
 			return top
 		case *ssa.Function, *ssa.Global, *ssa.Builtin:
@@ -382,11 +417,22 @@ func (di *dynInterp) run(f *ssa.Function, args []aval, depth int) aval {
 		if a, ok := env[v]; ok {
 			return a
 		}
+		if _, region := di.startAt[f]; region {
+			return top // defined before the region
+		}
 		return bot
 	}
 	result := bot
-	work := []*ssa.BasicBlock{f.Blocks[0]}
-	reach[f.Blocks[0]] = true
+	first := f.Blocks[0]
+	if sb, ok := di.startAt[f]; ok {
+		first = sb
+		// every edge into the start block counts as taken (phis there are preset)
+		for _, pr := range sb.Preds {
+			edge[[2]*ssa.BasicBlock{pr, sb}] = true
+		}
+	}
+	work := []*ssa.BasicBlock{first}
+	reach[first] = true
 	iter := 0
 	di.analysed[f] = true
 	for len(work) > 0 && iter < 4000 {
@@ -400,6 +446,10 @@ func (di *dynInterp) run(f *ssa.Function, args []aval, depth int) aval {
 			isVal := false
 			switch x := ins.(type) {
 			case *ssa.Phi:
+				if pv, ok := di.preset[x]; ok {
+					env[x] = pv
+					continue
+				}
 				isVal = true
 				nv = bot
 				for i, e := range x.Edges {
@@ -461,6 +511,10 @@ func (di *dynInterp) run(f *ssa.Function, args []aval, depth int) aval {
 				continue
 			default:
 				if v, ok := ins.(ssa.Value); ok {
+					if pv, ok := di.preset[v]; ok {
+						env[v] = pv
+						continue
+					}
 					isVal = true
 					nv = di.eval(f, v, ins, get, depth)
 				} else {
@@ -530,6 +584,9 @@ func (di *dynInterp) eval(f *ssa.Function, v ssa.Value, ins ssa.Instruction, get
 		if _, isIface := x.X.Type().Underlying().(*types.Interface); isIface {
 			return in
 		}
+		if di.arith && in.k == avConst {
+			return aval{k: avDyn, a: atomOfType(x.X.Type()), c: in.c}
+		}
 		return dyn(atomOfType(x.X.Type()))
 	case *ssa.ChangeInterface:
 		return get(x.X)
@@ -539,6 +596,20 @@ func (di *dynInterp) eval(f *ssa.Function, v ssa.Value, ins ssa.Instruction, get
 		in := get(x.X)
 		if in.k == avBot {
 			return bot
+		}
+		if di.arith && in.k == avConst && (in.c.Kind() == constant.Int || in.c.Kind() == constant.Float) {
+			if b, ok := x.Type().Underlying().(*types.Basic); ok {
+				switch {
+				case b.Info()&types.IsFloat != 0:
+					return aval{k: avConst, c: constant.ToFloat(in.c)}
+				case b.Info()&types.IsInteger != 0:
+					if in.c.Kind() == constant.Int {
+						return in
+					}
+					f, _ := constant.Float64Val(in.c)
+					return cInt(int64(f))
+				}
+			}
 		}
 		return top
 	case *ssa.TypeAssert:
@@ -606,6 +677,33 @@ func (di *dynInterp) eval(f *ssa.Function, v ssa.Value, ins ssa.Instruction, get
 		if a.k == avBot || b.k == avBot {
 			return bot
 		}
+		if di.arith && a.k == avConst && b.k == avConst {
+			switch x.Op {
+			case token.ADD, token.SUB, token.MUL:
+				if a.c.Kind() != constant.Bool && a.c.Kind() != constant.String {
+					return aval{k: avConst, c: constant.BinaryOp(a.c, x.Op, b.c)}
+				}
+			case token.QUO, token.REM:
+				if a.c.Kind() == constant.Int && b.c.Kind() == constant.Int {
+					if constant.Sign(b.c) == 0 {
+						return top
+					}
+					op := token.QUO_ASSIGN // integer division
+					if x.Op == token.REM {
+						op = token.REM
+					}
+					return aval{k: avConst, c: constant.BinaryOp(a.c, op, b.c)}
+				}
+				if x.Op == token.QUO && constant.Sign(b.c) != 0 {
+					return aval{k: avConst, c: constant.BinaryOp(a.c, token.QUO, b.c)}
+				}
+			case token.LAND, token.LOR:
+			}
+			if (x.Op == token.EQL || x.Op == token.NEQ || x.Op == token.LSS || x.Op == token.LEQ || x.Op == token.GTR || x.Op == token.GEQ) &&
+				a.c.Kind() != constant.Bool && b.c.Kind() != constant.Bool && a.c.Kind() != constant.String && b.c.Kind() != constant.String {
+				return cBool(constant.Compare(a.c, x.Op, b.c))
+			}
+		}
 		switch x.Op {
 		case token.EQL, token.NEQ, token.LSS, token.LEQ, token.GTR, token.GEQ:
 			if a.k == avConst && b.k == avConst && a.c.Kind() == b.c.Kind() {
@@ -654,6 +752,9 @@ func (di *dynInterp) call(f *ssa.Function, c *ssa.Call, get func(ssa.Value) aval
 			return bot
 		}
 		args = append(args, av)
+	}
+	if di.startAt != nil {
+		di.trace = append(di.trace, tracedCall{core.CalleeID(c), args})
 	}
 	kindCheck := func(method string, recv aval) {
 		legal, ok := kindLegal[method]
@@ -747,6 +848,28 @@ func (di *dynInterp) call(f *ssa.Function, c *ssa.Call, get func(ssa.Value) aval
 	}
 	if strings.HasPrefix(q, "reflect.Value.") {
 		kindCheck(strings.TrimPrefix(q, "reflect.Value."), args[0])
+		if di.arith && args[0].k == avDyn && args[0].c != nil {
+			switch strings.TrimPrefix(q, "reflect.Value.") {
+			case "Int", "Uint":
+				if args[0].c.Kind() == constant.Int {
+					return aval{k: avConst, c: args[0].c}
+				}
+			case "Float":
+				return aval{k: avConst, c: constant.ToFloat(args[0].c)}
+			}
+		}
+	}
+	if di.arith && q == "math.Trunc" && args[0].k == avConst {
+		f, _ := constant.Float64Val(constant.ToFloat(args[0].c))
+		t := float64(int64(f))
+		return aval{k: avConst, c: constant.MakeFloat64(t)}
+	}
+	if di.arith && g.Pkg != nil && g.Pkg.Pkg.Path() == "github.com/go-openapi/errors" {
+		return aval{k: avValid} // message constructors return a non-nil error value
+	}
+	if di.arith && q == "swag.IsFloat64AJSONInteger" && args[0].k == avConst {
+		f, _ := constant.Float64Val(constant.ToFloat(args[0].c))
+		return cBool(f == float64(int64(f)))
 	}
 	return top
 }
